@@ -63,9 +63,11 @@ InvokedBad(e, inv) ==
   {<<x[1], x[2]>> : x \in SeqToSet(e.invoked)} # {<<p, inv[p]>> : p \in DOMAIN inv}
 \* the views are taken at the start of the tick: unprimed tree
 XOf(T, b) == [k \in DOMAIN T[b] |-> T[b][k].x]
+\* a glob port declared {'*': {}} (bare) shows one empty entry per child: -1
+VX(e, T, b) == IF e.bare THEN [k \in DOMAIN T[b] |-> 0 - 1] ELSE XOf(T, b)
 ViewBad(e, T) ==
-  \/ e.dview.agents # XOf(T, "agents") \/ e.dview.pool # XOf(T, "pool")
-  \/ e.oview.ag # XOf(T, "agents")
+  \/ e.dview.agents # VX(e, T, "agents") \/ e.dview.pool # VX(e, T, "pool")
+  \/ e.oview.ag # VX(e, T, "agents")
   \/ SeqToSet(e.oview.keys) # {"ag", "g", "out"}
   \/ e.oview.out # <<>>
   \* a plain port wired into compartment agents/a: its variable is seen while
@@ -106,7 +108,7 @@ TInit ==
 SeenBad(e, sn) ==
   {<<x[1], x[2]>> : x \in SeqToSet(e.seen)} # {<<p, sn[p]>> : p \in DOMAIN sn}
 ZViewBad(e, T) ==
-  e.zview.agents # XOf(T, "agents") \/ e.zview.pool # XOf(T, "pool")
+  e.zview.agents # VX(e, T, "agents") \/ e.zview.pool # VX(e, T, "pool")
 
 TickFails(e) ==
   IF e.op.op = "addex" THEN (IF e.exc THEN {} ELSE {"not_rejected"})
